@@ -839,6 +839,7 @@ func (hm *HandshakeManager) beginHandshake(via ViaSender, packet []byte, h *head
 func (hm *HandshakeManager) continueHandshake(via ViaSender, hh *HandshakeHostInfo, packet []byte) {
 	f := hm.f
 
+	verifPoint(verifHsBeforeContinueLock)
 	hh.Lock()
 	defer hh.Unlock()
 
